@@ -65,7 +65,7 @@ type connOutcome struct {
 	offset  int
 }
 
-var capSizes = []int{0, 0, 0, 1, 17, 4096, 65537, 1 << 20}
+var capSizes = []int{0, 0, 0, 4096, 65537, 17, 1, 1 << 20} // rapid favours the front
 
 func drawConnCase(rt *rapid.T, layer string, lp layerParams, tamper bool) *connCase {
 	c := &connCase{Layer: layer}
@@ -269,13 +269,16 @@ func connLabels(c *connCase, lp layerParams, out connOutcome) (labels []string, 
 	}
 	for d := 0; d < 2; d++ {
 		add(lenLabel(c.Dir[d].Total, lp.frameMax))
-		if len(c.Dir[d].frames(lp.frameMax)) > 1 {
+		frames := c.Dir[d].frames(lp.frameMax)
+		small, pooled := simReads(c.Dir[d], frames, lp.tagLen)
+		if len(frames) > 1 || small || pooled {
 			nontrivial = true
+		}
+		if len(frames) > 1 {
 			add("multi-frame")
 		}
 		rd := out.rd[d]
 		if rd.small {
-			nontrivial = true
 			add("read<pending")
 		}
 		if lp.tagLen > 0 {
@@ -283,7 +286,6 @@ func connLabels(c *connCase, lp layerParams, out connOutcome) (labels []string, 
 				add("noise-path:in-place")
 			}
 			if rd.pooledFull > 0 {
-				nontrivial = true
 				add("noise-path:pooled-whole-frame")
 			}
 			if rd.queued > 0 {
@@ -356,29 +358,29 @@ func connProperty(t *testing.T, layer string, lp layerParams, tamper bool, setup
 
 func TestL1NoiseFidelity(t *testing.T) {
 	defer noteFailure(t)
-	hx.Check(t, 1200, 48000, 0, connProperty(t, "noise", noiseParams, false, func(*connCase) secureSetup { return noiseSetup }))
+	hx.Check(t, 4000, 100000, 0, connProperty(t, "noise", noiseParams, false, func(*connCase) secureSetup { return noiseSetup }))
 }
 
 func TestL1NoiseTamper(t *testing.T) {
 	defer noteFailure(t)
-	hx.Check(t, 500, 20000, 0, connProperty(t, "noise", noiseParams, true, func(*connCase) secureSetup { return noiseSetup }))
+	hx.Check(t, 2000, 60000, 0, connProperty(t, "noise", noiseParams, true, func(*connCase) secureSetup { return noiseSetup }))
 }
 
 // L2 TLS
 
 func TestL2TLSFidelity(t *testing.T) {
 	defer noteFailure(t)
-	hx.Check(t, 500, 16000, 0, connProperty(t, "tls", tlsParams, false, func(*connCase) secureSetup { return tlsSetup }))
+	hx.Check(t, 1500, 45000, 0, connProperty(t, "tls", tlsParams, false, func(*connCase) secureSetup { return tlsSetup }))
 }
 
 func TestL2TLSTamper(t *testing.T) {
 	defer noteFailure(t)
-	hx.Check(t, 300, 10000, 0, connProperty(t, "tls", tlsParams, true, func(*connCase) secureSetup { return tlsSetup }))
+	hx.Check(t, 1000, 30000, 0, connProperty(t, "tls", tlsParams, true, func(*connCase) secureSetup { return tlsSetup }))
 }
 
 // L3 private-network conn (confidentiality only: fidelity part of the property)
 
 func TestL3PnetFidelity(t *testing.T) {
 	defer noteFailure(t)
-	hx.Check(t, 500, 16000, 0, connProperty(t, "pnet", pnetParams, false, func(c *connCase) secureSetup { return pnetSetup(c.Key) }))
+	hx.Check(t, 1200, 36000, 0, connProperty(t, "pnet", pnetParams, false, func(c *connCase) secureSetup { return pnetSetup(c.Key) }))
 }
